@@ -2,6 +2,7 @@ package main
 
 import (
 	"fmt"
+	"strings"
 	"go/token"
 	"go/types"
 
@@ -207,7 +208,7 @@ func (vc *VC) doAlloc(st *State, elemGo types.Type, hint string) Value {
 
 func (vc *VC) nilCheck(fr *frame, st *State, p PtrVal, in ssa.Instruction) {
 	if len(p.Loc.Idx) == 1 && (p.Loc.Prefix == canonicalPrefix(p.Elem) || p.Elem.K == KArray) {
-		if p.Loc.Idx[0].S == "0" && p.Loc.Prefix[:min(7, len(p.Loc.Prefix))] == "global:" {
+		if strings.HasPrefix(p.Loc.Prefix, "global:") {
 			return
 		}
 		vc.oblige(st, "safe", "safe.nil@"+vc.posHint(fr, in), vc.posString(in.Pos()), Ne(p.Loc.Idx[0], Zero))
@@ -685,7 +686,7 @@ func (vc *VC) indexAddr(fr *frame, st *State, in *ssa.IndexAddr) Value {
 	switch b := x.(type) {
 	case SliceVal:
 		vc.oblige(st, "safe", "safe.index@"+vc.posHint(fr, in), vc.posString(in.Pos()), And(Le(Zero, i), Lt(i, b.Len)))
-		return PtrVal{Loc: Loc{"elems:" + b.Elem.String(), []Term{b.Arr, vc.script.Define(in.Name()+":i", Add(b.Off, i))}}, Elem: b.Elem}
+		return PtrVal{Loc: Loc{"elems:" + b.Elem.String(), []Term{b.Arr, vc.sidx(b.Off, i)}}, Elem: b.Elem}
 	case PtrVal:
 		if b.Elem.K != KArray {
 			vc.fail("IndexAddr on pointer to non-array")
